@@ -69,6 +69,13 @@ M = [
  ("C16","loop-ignores-return","compiler.go",'			if ro, ok := res.(returnObject); ok && c.fnDepth > 0 {\n				return loopReturn(ret, ro), nil\n			}\n\n			breakLoop := false','			if ro, ok := res.(returnObject); ok && c.fnDepth > 1 {\n				return loopReturn(ret, ro), nil\n			}\n\n			breakLoop := false'),
  ("C16","depth-not-restored","compiler.go",'	c.fnDepth++\n	res, err := c.evalBlockStatement(node.Block)\n	c.fnDepth--','	c.fnDepth++\n	res, err := c.evalBlockStatement(node.Block)'),
 ]
+M += [
+ ("C04","nil-embedded-field","compiler.go",'		f, ok := fieldByName(rv, node.Value)\n		if !ok {','		f, ok := rv.FieldByName(node.Value), true\n		if !ok {'),
+ ("C11","nil-embedded-field","compiler.go",'		f, ok := fieldByName(rv, node.Value)\n		if !ok {','		f, ok := rv.FieldByName(node.Value), true\n		if !ok {'),
+ ("C11","nil-embedded-other-value","compiler.go",'			// promoted through an embedded pointer that is nil: the path ends at a nil pointer\n			return nil, nil','			return rv.Interface(), nil'),
+ ("C04","pathfor-nil-pointer","helpers/paths/path_for.go",'	if !rv.IsValid() {\n		return "", errors.New("can not calculate path to nil")\n	}\n','	_ = errors.New\n'),
+ ("C04","pathfor-nil-embedded","helpers/paths/path_for.go",'		f = fieldByName(rv, "ID")','		f = rv.FieldByName("ID")'),
+]
 def main():
     only = sys.argv[1:] 
     for prop,name,f,old,new in M:
